@@ -31,6 +31,7 @@ from typing import Optional
 from collections.abc import Iterable
 
 import dulwich.repo
+from dulwich.errors import CommitError
 from dulwich.file import FileLocked, GitFile
 from dulwich.index import Index, index_entry_from_stat, write_index_dict
 from dulwich.objects import Blob, Tree
@@ -623,9 +624,13 @@ class BareGitStore(GitStore):
         return cls(dulwich.repo.MemoryRepo())
 
     def _commit_tree(self, tree_id, message, author=None):
-        return _do_commit(
-            self.repo, message=message, tree=tree_id, ref=self.ref, author=author
-        )
+        try:
+            return _do_commit(
+                self.repo, message=message, tree=tree_id, ref=self.ref, author=author
+            )
+        except CommitError as exc:
+            # the branch moved since the tree was read: another writer got there first
+            raise LockedError(self.repo.path) from exc
 
     def _import_one(
         self,
